@@ -22,7 +22,7 @@ def long_name(n):
 
 
 # names of every length class: single character, one full label, one character past a label's limit, the longest name DNS allows
-HOSTS = [('name', 'host.example'), ('name', 'a-b.c9.example.org'), ('name', 'h'), ('name', long_name(63)), ('name', long_name(64)), ('name', long_name(65)), ('name', long_name(253)), ('v4', '192.0.2.10'), ('v6', '::1'), ('v6', 'fe80::1'),
+HOSTS = [('name', 'host.example.'), ('name', 'db.'), ('name', 'host.example'), ('name', 'a-b.c9.example.org'), ('name', 'h'), ('name', long_name(63)), ('name', long_name(64)), ('name', long_name(65)), ('name', long_name(253)), ('v4', '192.0.2.10'), ('v6', '::1'), ('v6', 'fe80::1'),
          ('v6', '2001:0db8:0000:0000:0000:0000:0000:0001'), ('v6', '::ffff:192.0.2.1'), ('v6', '2001:DB8::A'), ('v6', 'FE80::1'),
          # every number of colons a literal can have (2..8): eight when '::' stands for one zero group at either end
          ('v6', '::2:3:4:5:6:7:8'), ('v6', '1:2:3:4:5:6:7::'), ('v6', '1:2:3:4:5:6:7:8'), ('v6', '1::8'), ('v6', '::3:4:5:6:7:443'), ('v6', '1:2:3::7:22')]
